@@ -36,3 +36,24 @@ package parser
 //@         && old(!convOK(unwrap(info.Object, *unstructured.Unstructured).Object)) && (res0 != nil || res1 != nil)) ==> res1 != nil
 //@   ensures [C13] converted: (res0 != nil) ==> (res1 == nil && fresh(res0) && dyntype(info.Object, *unstructured.Unstructured)
 //@         && old(convOK(unwrap(info.Object, *unstructured.Unstructured).Object)) && usedKind(res0.Kind))
+
+// ---------------------------------------------------------------------------------------------
+// A namespaced object without metadata.namespace lives in "default" - for every kind alike (C17, C01)
+// ---------------------------------------------------------------------------------------------
+
+//@ func (*K8sObject).initDefaultNamespace
+//@   requires k != nil && (k.Kind == "Deployment" ==> k.Deployment != nil) && (k.Kind == "DaemonSet" ==> k.DaemonSet != nil) && (k.Kind == "ReplicaSet" ==> k.ReplicaSet != nil) && (k.Kind == "StatefulSet" ==> k.StatefulSet != nil) && (k.Kind == "ReplicationController" ==> k.ReplicationController != nil) && (k.Kind == "Job" ==> k.Job != nil) && (k.Kind == "CronJob" ==> k.CronJob != nil) && (k.Kind == "Route" ==> k.Route != nil) && (k.Kind == "Ingress" ==> k.Ingress != nil) && (k.Kind == "Service" ==> k.Service != nil) && (k.Kind == "Pod" ==> k.Pod != nil) && (k.Kind == "NetworkPolicy" ==> k.NetworkPolicy != nil)
+//@   modifies *
+//@   ensures [C17,C01] nsDeployment: k.Kind == "Deployment" ==> k.Deployment.Namespace == (if old(k.Deployment.Namespace) == "" then "default" else old(k.Deployment.Namespace))
+//@   ensures [C17,C01] nsDaemonSet: k.Kind == "DaemonSet" ==> k.DaemonSet.Namespace == (if old(k.DaemonSet.Namespace) == "" then "default" else old(k.DaemonSet.Namespace))
+//@   ensures [C17,C01] nsReplicaSet: k.Kind == "ReplicaSet" ==> k.ReplicaSet.Namespace == (if old(k.ReplicaSet.Namespace) == "" then "default" else old(k.ReplicaSet.Namespace))
+//@   ensures [C17,C01] nsStatefulSet: k.Kind == "StatefulSet" ==> k.StatefulSet.Namespace == (if old(k.StatefulSet.Namespace) == "" then "default" else old(k.StatefulSet.Namespace))
+//@   ensures [C17,C01] nsReplicationController: k.Kind == "ReplicationController" ==> k.ReplicationController.Namespace == (if old(k.ReplicationController.Namespace) == "" then "default" else old(k.ReplicationController.Namespace))
+//@   ensures [C17,C01] nsJob: k.Kind == "Job" ==> k.Job.Namespace == (if old(k.Job.Namespace) == "" then "default" else old(k.Job.Namespace))
+//@   ensures [C17,C01] nsCronJob: k.Kind == "CronJob" ==> k.CronJob.Namespace == (if old(k.CronJob.Namespace) == "" then "default" else old(k.CronJob.Namespace))
+//@   ensures [C17,C01] nsRoute: k.Kind == "Route" ==> k.Route.Namespace == (if old(k.Route.Namespace) == "" then "default" else old(k.Route.Namespace))
+//@   ensures [C17,C01] nsIngress: k.Kind == "Ingress" ==> k.Ingress.Namespace == (if old(k.Ingress.Namespace) == "" then "default" else old(k.Ingress.Namespace))
+//@   ensures [C17,C01] nsService: k.Kind == "Service" ==> k.Service.Namespace == (if old(k.Service.Namespace) == "" then "default" else old(k.Service.Namespace))
+//@   ensures [C17,C01] nsPod: k.Kind == "Pod" ==> k.Pod.Namespace == (if old(k.Pod.Namespace) == "" then "default" else old(k.Pod.Namespace))
+//@   ensures [C17,C01] nsNetworkPolicy: k.Kind == "NetworkPolicy" ==> k.NetworkPolicy.Namespace == (if old(k.NetworkPolicy.Namespace) == "" then "default" else old(k.NetworkPolicy.Namespace))
+//@   ensures [C17] kind: k.Kind == old(k.Kind)
